@@ -247,6 +247,8 @@ def walk(e, f):
     if t == "call":
         for a in e[3]:
             walk(a, f)
+    elif t == "oparam":
+        return
     elif t in ("tuple", "array"):
         for a in e[1]:
             walk(a, f)
@@ -289,6 +291,8 @@ def show(e, depth=0):
     t = e[0]
     if t == "param":
         return "p%d" % e[1]
+    if t == "oparam":
+        return "%s.p%d" % (last(e[1]) if "{closure" not in e[1] else e[1].split("::", 2)[-1], e[2])
     if t == "upvar":
         return "up:%s" % (e[2] or e[1])
     if t == "const":
@@ -406,9 +410,34 @@ def all_call_exprs(body, defs=None):
     return res, d
 
 
+def map_expr(e, f):
+    """bottom-up rewrite of a flow expression"""
+    if not isinstance(e, tuple) or not e:
+        return e
+    t = e[0]
+    if t == "call":
+        e = ("call", e[1], e[2], tuple(map_expr(a, f) for a in e[3]), e[4])
+    elif t in ("field", "downcast", "cast", "discr", "repeat"):
+        e = (t, map_expr(e[1], f)) + tuple(e[2:])
+    elif t == "index":
+        e = ("index", map_expr(e[1], f), map_expr(e[2], f))
+    elif t in ("tuple", "array"):
+        e = (t, tuple(map_expr(a, f) for a in e[1]))
+    elif t == "adt":
+        e = ("adt", e[1], e[2], tuple((k, map_expr(a, f)) for k, a in e[3]))
+    elif t in ("closure", "agg"):
+        e = (t, e[1], tuple(map_expr(a, f) for a in e[2]))
+    elif t == "binop":
+        e = ("binop", e[1], map_expr(e[2], f), map_expr(e[3], f))
+    elif t == "unop":
+        e = ("unop", e[1], map_expr(e[2], f))
+    return f(e)
+
+
 def resolve_captures(crate, closure_body):
-    """capture expressions of `closure_body` expressed over the parameters of the enclosing fn
-    (upvars of intermediate closures are substituted recursively)"""
+    """capture expressions of `closure_body`; parameters of enclosing bodies appear as
+    ('oparam', owner_path, i) so that they cannot be confused with the closure's own ('param', i);
+    upvars of intermediate closures are substituted recursively"""
     parent = crate.bodies.get(closure_body.parent)
     if parent is None:
         return None
@@ -417,24 +446,32 @@ def resolve_captures(crate, closure_body):
     if r is None:
         return None
     caps = list(r.call[3][r.arg_index][2])
-    if parent.kind == "closure":
-        pc = resolve_captures(crate, parent)
+    pc = resolve_captures(crate, parent) if parent.kind == "closure" else None
 
-        def sub(e):
-            if not isinstance(e, tuple) or not e:
-                return e
-            if e[0] == "upvar":
-                if pc is not None and e[1] < len(pc):
-                    return pc[e[1]]
-                return e
-            if e[0] == "call":
-                return ("call", e[1], e[2], tuple(sub(a) for a in e[3]), e[4])
-            if e[0] in ("field", "downcast"):
-                return (e[0], sub(e[1]), e[2])
-            if e[0] == "index":
-                return ("index", sub(e[1]), sub(e[2]))
-            if e[0] == "tuple":
-                return ("tuple", tuple(sub(a) for a in e[1]))
-            return e
-        caps = [sub(c) for c in caps]
-    return caps
+    def f(e):
+        if e[0] == "param":
+            return ("oparam", parent.path, e[1])
+        if e[0] == "upvar":
+            if pc is not None and e[1] < len(pc):
+                return pc[e[1]]
+        return e
+    return [map_expr(c, f) for c in caps]
+
+
+def closure_ret(crate, closure_body, defs=None):
+    """return expression of a closure with its upvars replaced by the resolved captures"""
+    d = defs or Defs(closure_body)
+    ret = d.expr_local(0)
+    return subst_upvars(ret, resolve_captures(crate, closure_body) or [])
+
+
+def subst_upvars(e, caps):
+    def f(x):
+        if x[0] == "upvar" and x[1] < len(caps):
+            return caps[x[1]]
+        return x
+    return map_expr(e, f)
+
+
+def is_oparam(e, i, owner_suffix=None):
+    return isinstance(e, tuple) and e and e[0] == "oparam" and e[2] == i and (owner_suffix is None or sg(e[1]).endswith(owner_suffix))
